@@ -743,6 +743,37 @@ for c in CONNECTORS:
     elif r['last'] != 1:
         chk.violation(f'udp.socks5->{c}', 'datagram-lost:after-a-fragment', f'socks5 -> {c}: the whole datagram sent after the fragments was delivered {r["last"]} times', {'connector': c})
 
+# ---- the relay port of a SOCKS5 UDP association belongs to the client that first uses it: a datagram that another
+#      sender gets into the port's queue at the same moment is not part of that client's session
+def run_foreign(c):
+    p, ap, rud = hopA[c]
+    hits = 0
+    tries = 12
+    for t in range(tries):
+        ctrl, r = socks5_connect(ap['socks'], '0.0.0.0', 0, cmd=3, timeout=5)
+        if r['rep'] != 0 or len(r['reply']) < 10:
+            return 'association-refused'
+        relay = ('127.0.0.1', struct.unpack('>H', r['reply'][8:10])[0])
+        a = socket.socket(socket.AF_INET, socket.SOCK_DGRAM); a.bind(('127.0.0.1', 0))
+        b = socket.socket(socket.AF_INET, socket.SOCK_DGRAM); b.bind(('127.0.0.1', 0))
+        mine = tagged(40, f'owner-{c}-{t}')
+        alien = tagged(40, f'foreign-{c}-{t}')
+        hdr = b'\0\0\0' + socks5_addr('127.0.0.1', origin.port)
+        a.sendto(hdr + mine, relay)
+        b.sendto(hdr + alien, relay)
+        time.sleep(0.25)
+        if origin.count(alien) > 0:
+            hits += 1
+        for x in (a, b, ctrl):
+            x.close()
+    return hits
+for c in ('direct', 'http-inline'):
+    evals += 1
+    r = run_foreign(c)
+    distinct.add(('foreign', c, str(r)))
+    if isinstance(r, int) and r > 0:
+        chk.violation(f'udp.socks5->{c}', 'foreign-sender-joins-the-session', f'socks5 -> {c}: in {r} of 12 associations a datagram that ANOTHER socket sent to the relay port right behind the owner\'s first datagram was forwarded to the destination as part of the owner\'s session', {'connector': c, 'hits': r})
+
 origin2.stop()
 for p, _, _ in hopA.values():
     if not p.alive():
